@@ -1,9 +1,9 @@
 \* generated by gensnap.py - edit there
 SPECIFICATION Spec
 CONSTANTS
- Clients = {1, 2, 3}
- MaxLocal = 4
- MaxSyncs = 10
+ Clients = {1, 2}
+ MaxLocal = 2
+ MaxSyncs = 3
  MaxPatches = 0
  MaxUpdaters = 2
  InitSnapshot = TRUE
@@ -12,5 +12,6 @@ INVARIANT UserDocIsSnapshot
 INVARIANT OneUpdaterAtATime
 INVARIANT PubsMonotone
 INVARIANT PubsWithinLog
-INVARIANT StepDump
+PROPERTY UserDocMonotone
+VIEW StateView
 CHECK_DEADLOCK FALSE
